@@ -326,8 +326,24 @@ def run_property(prop, modname, tier, level, title='', record_baseline=False):  
                                    v.get('input'), v.get('what'),
                                    nr['name'], None))
         else:
-            crashes.append((nr['name'], f"native check exit {nr['exit']}: "
-                            + nr['stderr_tail'][-1500:]))
+            # an uncaught exception: if it was raised inside the code under
+            # test (innermost frame in the repository) it is reported as a
+            # violation of the run-time contract 'raises nothing', otherwise
+            # the harness itself is broken
+            files = re.findall(r'File "([^"]+)", line (\d+)',
+                               nr['stderr_tail'])
+            if nr['exit'] not in ('timeout', ) and files and \
+                    os.path.abspath(files[-1][0]).startswith(
+                        os.path.abspath(REPO) + os.sep):
+                violations.append((nr['name'] + '/real-code-raised',
+                                   {'traceback': nr['stderr_tail'][-1200:]},
+                                   'uncaught exception from '
+                                   f'{files[-1][0]}:{files[-1][1]}',
+                                   nr['name'], None))
+            else:
+                crashes.append((nr['name'],
+                                f"native check exit {nr['exit']}: "
+                                + nr['stderr_tail'][-1500:]))
 
     bounded_ok = sorted(set(bounded_ok))
     proved = sorted(set(proved) - set(bounded_ok))
